@@ -217,131 +217,6 @@ static void cancelAllOf(const unsigned n)
     // events of the victim handler only the first was cancelled; repaired in /repo by the 'fix: eventDelete(func,
     // nullptr) skipped ...' commit. Queues with adjacent victim events are therefore included.)
     const unsigned trapsBefore = traps;
-    const bool was = pending(ev[i]);
-    eventDelete(ev[i].func, &ev[i]);
-    if (was) {
-        ev[i].cancelled = true;
-        vf_assert(traps == trapsBefore, "cancelling a pending event finds it");
-        vf_reach("cancelled");
-    } else
-        vf_assert(traps == trapsBefore + 1, "cancelling an absent event is reported and changes nothing");
-}
-
-static void opClock()
-{
-    const unsigned j = (unsigned)vf_concretize(vf_range(0, 3, "clock_step"));
-    current_dtime += ((int)j - 1) * 0.5;                        // -0.5, 0, +0.5, +1
-}
-
-// one EventScheduler::checkEvents() + AsyncCallQueue::fire(), as EventLoop::runOnce() does for a non-primary engine
-static int opBatch()
-{
-    nbatch = 0;
-    const int r = EventScheduler::GetInstance()->checkEvents(0);
-    vf_assert(nbatch == 0, "checkEvents() only queues calls");
-    AsyncCallQueue::Instance().fire();
-    vf_assert(r == expectedRemaining(), "checkEvents() returns idle / 0 / rounded-up ms to the earliest pending event");
-    for (unsigned n = 0; n + 1 < nbatch; ++n)
-        vf_assert(ev[batch[n]].weight == 0, "nothing is dequeued after a heavy event in the same batch");
-    if (r == 0) {
-        vf_assert(nbatch > 0 && ev[batch[nbatch - 1]].weight != 0, "a batch leaves due events behind only after a heavy event");
-        vf_reach("heavy-stop");
-    }
-    if (nbatch > 1) vf_reach("batch-of-several");
-    if (nbatch) vf_reach("fired");
-    return r;
-}
-
-static void drainAndCheck()
-{
-    current_dtime += 100;
-    for (unsigned n = 0; n <= NEV; ++n) {
-        if (opBatch() == AsyncEngine::EVENT_IDLE)
-            break;
-    }
-    vf_assert(EventScheduler::GetInstance()->timeRemaining() == AsyncEngine::EVENT_IDLE, "the queue drains");
-    for (unsigned i = 0; i < nev; ++i) {
-        vf_assert(ev[i].fired == (ev[i].cancelled ? 0u : 1u), "every event that was not cancelled fires exactly once; cancelled ones never");
-        vf_observe("fired", ev[i].fired);
-    }
-    vf_observe("nev", nev);
-    vf_reach("done");
-    WITNESS_POINT();
-}
-
-static void start()
-{
-    vf_quiet();
-    current_dtime = 10.0;
-    checkQueueView();
-}
-
-// free sequences of `len` operations
-static void sequence(const unsigned len, const unsigned maxEv, const unsigned maxK)
-{
-    start();
-    for (unsigned s = 0; s < len; ++s) {
-        switch (vf_choose(4, "op")) {
-        case 0: if (nev >= maxEv) return; opSchedule(maxK, (nev & 1) ? handlerB : handlerA); break;
-        case 1: if (!nev) return; opCancel(); break;
-        case 2: opClock(); break;
-        default: if (!nev) return; opBatch(); break;
-        }
-        checkQueueView();
-    }
-    drainAndCheck();
-}
-
-// `n` schedules (optionally one clock step before the last), then optionally one cancel, then clock step and run
-static void scheduleThenRun(const unsigned n, const unsigned maxK, const bool clockBetween)
-{
-    start();
-    for (unsigned i = 0; i < n; ++i) {
-        if (clockBetween && i + 1 == n && vf_choose(2, "clock_between")) opClock();
-        opSchedule(maxK, (nev & 1) ? handlerB : handlerA);
-    }
-    checkQueueView();
-    if (vf_choose(2, "cancel")) { opCancel(); checkQueueView(); }
-    opClock(); checkQueueView();
-    opBatch(); checkQueueView();
-    drainAndCheck();
-}
-
-#ifdef VF_THOROUGH
-extern "C" void c59_ops(void) { sequence(5, 3, 2); }
-extern "C" void c59_batches(void) { scheduleThenRun(4, 2, false); }
-#else
-extern "C" void c59_ops(void) { sequence(4, 3, 2); }
-extern "C" void c59_batches(void) { scheduleThenRun(3, 2, false); }
-#endif
-
-// ---- eventDelete(func, nullptr): "cancel every event of this handler"
-static void cancelAllOf(const unsigned n)
-{
-    start();
-    for (unsigned i = 0; i < n; ++i)
-        opSchedule(2, vf_concretize(vf_range(0, 1, "handler")) ? handlerB : handlerA);
-    checkQueueView();
-    EVH *victim = vf_choose(2, "cancel_handler") ? handlerB : handlerA;
-    // KNOWN-FINDING candidate: EventScheduler::cancel(func, nullptr) skips the entry that follows a deleted one (after
-    // `*E = event->next` the for-increment advances E once more), so of two events of `func` that are adjacent in the
-    // queue only the first is cancelled and the second fires later. Excluded here: queues in which two pending events
-    // of the victim handler are adjacent. (All values involved are concrete on a path.)
-    {
-        int prev = -1; bool adjacent = false;     // walk the ghost events in queue order (due, index)
-        for (unsigned done = 0; done < nev; ++done) {
-            int best = -1;
-            for (unsigned i = 0; i < nev; ++i) {
-                const bool afterPrev = prev < 0 || ev[i].due > ev[prev].due || (ev[i].due == ev[prev].due && (int)i > prev);
-                if (afterPrev && (best < 0 || ev[i].due < ev[best].due)) best = (int)i;
-            }
-            if (best < 0) break;
-            if (prev >= 0 && ev[prev].func == victim && ev[best].func == victim) adjacent = true;
-            prev = best;
-        }
-        vf_assume(!adjacent);
-    }
-    const unsigned trapsBefore = traps;
     eventDelete(victim, nullptr);
     vf_assert(traps == trapsBefore, "cancel-all never reports a missing event");
     for (unsigned i = 0; i < nev; ++i)
